@@ -10,6 +10,13 @@ from sx.engine import harness
 from . import common as C, families as F, c01
 from .c01 import where_raised
 
+def _gen_extra():
+    from .c15 import sym_round
+    from sx.env import sym_only
+    return {("votekit.pref_interval", "round"): sym_only(sym_round), ("votekit.ballot_generator", "round"): sym_only(sym_round)}
+
+
+GEN_EXTRA = _gen_extra()
 CONC = [("A>B>C", 3), ("B>C", 2), ("C>A", 2), ("A", 1)]
 CONC_SCORES = [({"A": 1, "B": 1}, 2), ({"B": 1, "C": 1}, 1), ({"A": 1}, 1)]
 
@@ -217,6 +224,54 @@ def integer_weight(ctx):
     return {"kind": "accepted"}
 
 
+@harness("c20.gen_sums", extra=GEN_EXTRA, float_mix="real")
+def gen_sums(ctx):
+    """generators refuse bloc proportions / cohesion rows that do not sum to one (exact real arithmetic:
+    round(x, 8) != 1 is modelled as x != 1; the 5e-9 tolerance band is outside the claim)"""
+    from sx import env
+    from . import gen
+    bg = env.import_generators()
+    from votekit.pref_interval import PreferenceInterval
+    P = ctx.params
+    which = P["which"]
+    a = ctx.real("a", lo=0, hi=1, snap=True)
+    b = ctx.real("b", lo=0, hi=1, snap=True)
+    av, bv = (a, b) if ctx.sym else (float(a), float(b))
+    props = {"X": 0.5, "Y": 0.5}
+    coh = {"X": {"X": 0.75, "Y": 0.25}, "Y": {"X": 0.25, "Y": 0.75}}
+    if which == "props":
+        props = {"X": av, "Y": bv}
+    elif which == "cohesion0":
+        coh["X"] = {"X": av, "Y": bv}
+    else:
+        coh["Y"] = {"X": av, "Y": bv}
+    ok = eq(add(a, b), 1)
+    if ctx.canary == "sum-below-one-accepted":
+        ok = le(add(a, b), 1)
+    iv = {x: {"X": PreferenceInterval({"x0": 0.5, "x1": 0.5}), "Y": PreferenceInterval({"y0": 1.0})} for x in ("X", "Y")}
+    cls = getattr(bg, P["cls"])
+    kw = dict(pref_intervals_by_bloc=iv, bloc_voter_prop=props, cohesion_parameters=coh)
+    if P["cls"] in ("slate_PlackettLuce", "AlternatingCrossover", "slate_BradleyTerry"):
+        kw["slate_to_candidates"] = {"X": ["x0", "x1"], "Y": ["y0"]}
+    else:
+        kw["candidates"] = ["x0", "x1", "y0"]
+    if P["cls"] == "name_Cumulative":
+        kw["num_votes"] = 2
+    try:
+        cls(**kw)
+    except ValueError as exc:
+        ctx.require(NOT(ok), "c20:generator-rejects-valid-sum", f"{P['cls']} {which}: {exc}"[:200])
+        return {"kind": "valueerror"}
+    except ZeroDivisionError:
+        ctx.require(True, "c20:degenerate (C15's subject)")
+        return {"kind": "zerodiv"}
+    except Exception as exc:
+        ctx.fail(f"c20:generator-wrong-exception:{type(exc).__name__}", f"{P['cls']} {which}: {exc}"[:200])
+        return {"kind": "exc"}
+    ctx.require(ok, "c20:generator-accepts-bad-sum", f"{P['cls']}: {which} not summing to one accepted")
+    return {"kind": "accepted"}
+
+
 def direct_clauses():
     from sx import env
     env.import_votekit()
@@ -243,6 +298,35 @@ def direct_clauses():
             E.STV(prof, m=1, quota=qn)
         except Exception as exc:
             probs.append(f"valid quota {qn!r} rejected: {type(exc).__name__}")
+    # generators: mismatched bloc names, overlapping interval candidate sets
+    bg = env.import_generators()
+    from votekit.pref_interval import PreferenceInterval, combine_preference_intervals
+    iv = {x: {"X": PreferenceInterval({"x0": 0.5, "x1": 0.5}), "Y": PreferenceInterval({"y0": 1.0})} for x in ("X", "Y")}
+    good = dict(candidates=["x0", "x1", "y0"], pref_intervals_by_bloc=iv, bloc_voter_prop={"X": 0.5, "Y": 0.5},
+                cohesion_parameters={"X": {"X": 0.75, "Y": 0.25}, "Y": {"X": 0.25, "Y": 0.75}})
+    try:
+        bg.name_PlackettLuce(**good)
+    except Exception as exc:
+        probs.append(f"valid generator parameters rejected: {type(exc).__name__}")
+    for field, bad in (("bloc_voter_prop", {"X": 0.5, "Z": 0.5}), ("cohesion_parameters", {"X": {"X": 0.75, "Y": 0.25}, "Z": {"X": 0.25, "Y": 0.75}}),
+                       ("pref_intervals_by_bloc", {"X": iv["X"], "W": iv["Y"]})):
+        try:
+            bg.name_PlackettLuce(**dict(good, **{field: bad}))
+            probs.append(f"mismatched bloc names in {field} accepted")
+        except ValueError:
+            pass
+        except Exception as exc:
+            probs.append(f"mismatched bloc names in {field}: {type(exc).__name__}")
+    try:
+        combine_preference_intervals([PreferenceInterval({"a": 0.5, "b": 0.5}), PreferenceInterval({"b": 1.0})], [0.5, 0.5])
+        probs.append("overlapping interval candidate sets accepted")
+    except ValueError:
+        pass
+    try:
+        bg.name_PlackettLuce(pref_intervals_by_bloc=iv, bloc_voter_prop={"X": 0.5, "Y": 0.5}, cohesion_parameters=good["cohesion_parameters"])
+        probs.append("generator without candidates accepted")
+    except ValueError:
+        pass
     return probs
 
 
@@ -284,6 +368,11 @@ def tasks(tier, seed):
     for what in ("PluralityVeto", "random_transfer"):
         for idx in (0, 1):
             out.append({"harness": "c20.integer_weight", "params": {"what": what, "idx": idx}, "sig_keys": ["what"], "name": f"integer weight {what}@{idx}"})
+    for cls in ("name_PlackettLuce", "slate_PlackettLuce", "name_BradleyTerry", "AlternatingCrossover", "name_Cumulative"):
+        for which in ("props", "cohesion0", "cohesion1"):
+            out.append({"harness": "c20.gen_sums", "params": {"cls": cls, "which": which}, "sig_keys": ["cls", "which"], "name": f"generator sums {cls} {which}"})
+    out.append({"harness": "c20.gen_sums", "params": {"cls": "name_PlackettLuce", "which": "props"}, "canary": "sum-below-one-accepted", "stop_on_violation": True,
+                "name": "canary:sum-below-one-accepted", "xval_stride": 0})
     out.append({"kind": "call", "module": "props.c20", "func": "run_direct", "harness": "c20.direct", "name": "direct clauses (duplicate candidates, quota names)"})
     out.append({"harness": "c20.seats", "params": {"rule": "Plurality", "opts": {"tiebreak": "random"}}, "canary": "m-equal-n-rejected", "stop_on_violation": True,
                 "name": "canary:m-equal-n-rejected", "xval_stride": 0})
@@ -299,5 +388,5 @@ def tasks(tier, seed):
 META = {
     "explanation": "one harness per documented precondition with the violating quantity symbolic (integer seat counts incl. Alaska's two stages, rational score-vector entries, rating limit/budget, ballot weights, the index of the defective ballot enumerated) and both directions asserted: the documented exception is raised iff the precondition is violated",
     "assumptions": ["A-LD", "A-RND", "A-FMT", "A-PD", "seat counts bounded to [-3,7] (3 candidates), weights to (0,3]", "quota names and duplicate candidate tuples have no numeric input: evaluated directly on listed values (not a solver claim)"],
-    "direct": ["duplicate candidate tuples rejected with ValueError", "unknown quota names rejected with ValueError on a list of near-miss strings"],
+    "direct": ["duplicate candidate tuples rejected with ValueError", "unknown quota names rejected with ValueError on a list of near-miss strings", "mismatched bloc names between the three generator dictionaries", "overlapping preference-interval candidate sets", "generator without candidates"],
 }
